@@ -1394,6 +1394,10 @@ class _Func:
 func = _Func()
 
 
+inf = __import__("math").inf  # (`float` is the dtype in this module)
+nan = __import__("math").nan
+
+
 def __getattr__(name):
     if name.startswith("__"):
         raise AttributeError(name)
